@@ -10,9 +10,141 @@ FUNCS = [
     ('c10_c11_list_of_tuples', 'heap.list_of_tuples', 'list<tuple<u8, u32, u8>>', HEAP),
     ('c10_c11_variant_string', 'heap.variant_string_case', 'variant whose string case owns a buffer: post-return frees exactly when the result holds one', HEAP),
     ('c10_c11_list_of_strings', 'heap.list_of_strings', 'list<string>: generated *_free helper releases elements and list; post-return releases the result', HEAP),
+    ('c10_c11_record_with_heap_fields', 'heap.record_with_heap_fields', 'record with a string and a list field: *_free helper and post-return release both buffers', HEAP),
+    ('c10_c11_result_with_string', 'heap.result_with_string', 'result<string, u32>: a buffer is freed exactly when the case is ok', HEAP),
     ('c10_variant_numeric', 'heap.variant_numeric_cases_free_nothing', 'variant numeric cases: post-return frees nothing', C10.FULL),
     ('c11_import_arguments_untouched', 'heap.import_arguments_untouched', 'import with option<list<string>>: arguments borrowed, left untouched, still the caller\'s to free', C10.FULL),
 ]
+
+
+GR = 'generated C bindings for kani/cgen_res/probe.wit (crates/c/src/lib.rs type_resource, define_live_types / define_dtor / free, FunctionBindgen::emit HandleLift / HandleLower / Return) - '
+RES = 'one probe world (imported resource blob-store, exported resources my-thing and box, an interface both imported and exported); handles over all non-zero i32'
+RES_FUNCS = [
+    ('c11r_borrow_plain', 'handles.borrow_argument', 'borrow<imported resource> argument of an export', RES),
+    ('c11r_borrow_in_option', 'handles.borrow_in_option', 'option<borrow<..>> argument: released exactly when one was lent', RES),
+    ('c11r_borrow_in_variant', 'handles.borrow_in_variant', 'variant { by-handle(borrow<..>), by-index(u32) }: an integer payload in the shared flat slot is not a handle', RES),
+    ('c11r_own_and_exported_borrow', 'handles.own_and_exported_borrow', 'own arguments / results and borrows of exported resources: the bindings release nothing', RES),
+    ('c11r_destructor_runs_once', 'handles.destructor_wrapper', 'the [dtor] export of each exported resource calls that resource\'s user destructor exactly once', RES),
+    ('c11r_handle_helpers', 'handles.helpers', 'drop_own / drop_borrow / new / rep / borrow helpers: exactly one canonical built-in call each', RES),
+]
+FREE = 'one probe world; lists of <= 2 strings of <= 1 byte'
+FREE_FUNCS = [
+    ('c11r_free_helpers_import_side', 'heap.free_helpers_import_side', 'record { list<string>, u32 } and variant with a list<string> case: *_free releases every owned buffer exactly once', FREE),
+    ('c11r_free_helpers_export_side', 'heap.free_helpers_export_side', 'the same types on the export side of an interface that is both imported and exported', FREE),
+]
+
+
+def export_names(text):
+    import re
+    return re.findall(r'__export_name__\("([^"]*)"\)', text)
+
+
+def spec_export_names(wit):
+    """Independent spec of the core export names a component encoder recognises for the probe (CanonicalABI.md / wit-component naming):
+    `<iface>#<func>`, `<iface>#[constructor]<r>`, `<iface>#[method]<r>.<m>`, `<iface>#[static]<r>.<m>`, `<iface>#[dtor]<r>`,
+    `cabi_post_<export>`, `cabi_realloc` - all with the WIT (kebab-case) names.  Returns (required, recognised)."""
+    import re
+    pkg = re.search(r'package\s+([\w:-]+);', wit).group(1)
+    ifaces = {}
+    for m in re.finditer(r'interface\s+([\w-]+)\s*\{', wit):
+        i, depth, j = m.end(), 1, m.end()
+        while depth:
+            depth += {'{': 1, '}': -1}.get(wit[j], 0)
+            j += 1
+        ifaces[m.group(1)] = wit[i:j - 1]
+    world = re.search(r'world\s+[\w-]+\s*\{(.*?)\}', wit, re.S).group(1)
+    required, recognised = set(), {'cabi_realloc'}
+    for exp in re.findall(r'export\s+([\w-]+);', world):
+        body = ifaces[exp]
+        q = '%s/%s' % (pkg, exp)
+        res_bodies = []
+        for m in re.finditer(r'resource\s+([\w-]+)\s*\{(.*?)\}', body, re.S):
+            r, rb = m.group(1), m.group(2)
+            res_bodies.append(m.group(0))
+            required.add('%s#[dtor]%s' % (q, r))
+            if re.search(r'constructor\s*\(', rb):
+                required.add('%s#[constructor]%s' % (q, r))
+            for fm in re.finditer(r'([\w-]+)\s*:\s*(static\s+)?func', rb):
+                required.add('%s#[%s]%s.%s' % (q, 'static' if fm.group(2) else 'method', r, fm.group(1)))
+        rest = body
+        for rb in res_bodies:
+            rest = rest.replace(rb, '')
+        for fm in re.finditer(r'([\w-]+)\s*:\s*func', rest):
+            required.add('%s#%s' % (q, fm.group(1)))
+    recognised |= required | {'cabi_post_' + n for n in required}
+    return required, recognised
+
+
+def check_export_names(rep, d, sub):
+    from vlib.common import Obligation, VERIF
+    import os
+    wit = open(os.path.join(VERIF, 'kani/cgen_res/probe.wit')).read()
+    text = open(os.path.join(d, 'resprobe.c')).read()
+    required, recognised = spec_export_names(wit)
+    got = export_names(text)
+    dtors = sorted(n for n in required if '#[dtor]' in n)
+    ob = Obligation('handles.destructor_export_name' + sub, GR + 'the destructor of every exported resource is exported under the name the component model gives it, '
+                    '`<interface>#[dtor]<resource>` with the resource\'s WIT name (a name the encoder does not recognise is silently left unwired: the user destructor never runs)',
+                    'property', 'text-spec', bounded=RES)
+    missing = [n for n in dtors if n not in got]
+    if not dtors:
+        ob.status, ob.detail = 'undecided', 'the probe declares no exported resource'
+    elif missing:
+        near = [g for g in got if '[dtor]' in g]
+        ob.status = 'failed'
+        ob.detail = 'exported resources whose destructor is not exported under its canonical name: %s; [dtor] exports in the generated C: %s' % (missing, near)
+        ob.replay = {'input': 'kani/cgen_res/probe.wit (resource names: %s)' % ', '.join(n.split(']')[1] for n in dtors), 'function': 'crates/c/src/lib.rs type_resource',
+                     'how': 'run the real generator (`wit-bindgen c kani/cgen_res/probe.wit`) and read the __export_name__ attribute of __wasm_export_*_dtor in resprobe.c; '
+                            'wit-component (validation.rs match_wit_resource_dtor) looks the suffix up among the interface\'s WIT type names and ignores the export when it is not one',
+                     'expected': missing, 'observed': near}
+    else:
+        ob.status = 'discharged'
+    rep.add(ob)
+    ob = Obligation('exports.names_recognised' + sub, GR + 'every export the generated C declares carries a name from the component model\'s naming scheme for this world, and every '
+                    'exported function / constructor / method / destructor of the probe is exported', 'property', 'text-spec', bounded=RES)
+    stray = sorted(g for g in got if g not in recognised)
+    lacking = sorted(n for n in required if n not in got)
+    if stray or lacking:
+        ob.status = 'failed'
+        ob.detail = 'exports with a name outside the scheme: %s; required exports that are missing: %s' % (stray, lacking)
+        ob.replay = {'input': 'kani/cgen_res/probe.wit', 'function': 'crates/c/src/lib.rs (export name attributes)', 'how': 'grep __export_name__ in the generated resprobe.c',
+                     'expected': sorted(required), 'observed': got}
+    else:
+        ob.status = 'discharged'
+    rep.add(ob)
+
+
+def run_resources(rep):
+    import os
+    for sub, args, defs in [('', [], []), ('-autodrop', ['--autodrop-borrows', 'yes'], ['AUTODROP'])]:
+        d = C10.generate(rep, 'cgen_res', 'resprobe', args, sub)
+        hdr = open(os.path.join(d, 'resprobe.h')).read()
+        funcs = [(f, oid + sub, what + (' [--autodrop-borrows yes]' if sub else ' [default options]'), b) for f, oid, what, b in RES_FUNCS]
+        C10.check(rep, d, funcs, 'C11:', memory=True, defines=defs, canary=False, G=GR)
+        check_export_names(rep, d, sub)
+        if sub:
+            continue
+        # generated free helpers (independent of autodrop): the export-side helpers must exist before the harness can call them
+        have = 'exports_verif_res_shared_names_free(' in hdr and 'exports_verif_res_shared_pick_free(' in hdr
+        if have:
+            C10.check(rep, d, FREE_FUNCS, 'C11:', memory=True, defines=['HAVE_EXPORT_SIDE_FREE'], canary=True, G=GR)
+        else:
+            C10.check(rep, d, FREE_FUNCS[:1], 'C11:', memory=True, defines=[], canary=True, G=GR)
+            f, oid, what, b = FREE_FUNCS[1]
+            if 'exports_verif_res_shared_pick_free(' in hdr:
+                # the variant's helper exists: let CBMC show what it leaves allocated
+                C10.check(rep, d, [('c11r_free_helper_export_side_variant', oid, what + ' (variant helper only: the record\'s helper is not generated at all)', b)],
+                          'C11:', memory=True, defines=[], canary=False, G=GR)
+            else:
+                from vlib.common import Obligation
+                ob = Obligation(oid, GR + what, 'property', 'text-spec', bounded=b)
+                ob.status = 'failed'
+                ob.detail = ('the header declares no free helper for a type that owns memory: exports_verif_res_shared_names_free / exports_verif_res_shared_pick_free '
+                             '(record { all: list<string>, id: u32 } / variant with a list<string> case on the export side of an interface that is also imported)')
+                ob.replay = {'input': 'kani/cgen_res/probe.wit', 'function': 'crates/c/src/lib.rs define_live_types / define_dtor',
+                             'how': 'run the real generator and grep `_free(` in resprobe.h: the import-side twins verif_res_shared_names_free / verif_res_shared_pick_free exist and free the list, '
+                                    'the export-side ones are missing', 'observed': [l for l in hdr.splitlines() if '_free(' in l]}
+                rep.add(ob)
 
 
 def run(rep, tier):
@@ -22,4 +154,5 @@ def run(rep, tier):
                'arguments with the generated *_free helpers, as the documented ownership rules require',
                'not covered: an exported resource\'s destructor, the free helpers of types outside the probe')
     d = C10.generate(rep)
-    C10.check(rep, d, FUNCS, 'C11:', memory=True)
+    C10.check(rep, d, FUNCS, 'C11:', memory=True, canary=False)
+    run_resources(rep)
